@@ -167,3 +167,17 @@ package claim
 //@   update xrApplied = true
 //@ site (client.SubResourceWriter).Update(_, _, $o)
 //@   update statusUpdated = true
+
+// C09 / C02: the claim's connection secret is written only from a secret that the XR itself
+// controls, carries exactly that secret's data, and the write is refused for a secret
+// controlled by anybody else.
+
+//@ func (*claim.APIConnectionPropagator).PropagateConnection
+//@ props C09
+//@ let $ts = result resource.LocalConnectionSecretFor
+//@ site (resource.Applicator).Apply(_, _, $o, $opts...)
+//@   assert [C09:both-sides-want-a-secret] from.GetWriteConnectionSecretToReference() != nil && to.GetWriteConnectionSecretToReference() != nil
+//@   assert [C09,C02:source-owned-by-xr] metav1.GetControllerOf(fs) != nil && metav1.GetControllerOf(fs).UID == from.GetUID()
+//@   assert [C09:same-data] $o == $ts && $ts.Data == fs.Data
+//@   assert [C09,C02:secret-controllable-by-claim] contains($opts, resource.ConnectionSecretMustBeControllableBy(to.GetUID()))
+//@ ensures [C09:no-secret-no-propagation] (from.GetWriteConnectionSecretToReference() == nil || to.GetWriteConnectionSecretToReference() == nil) ==> (result == false && err == nil && writes == old(writes))
